@@ -242,7 +242,10 @@ class OpsMixin(object):
                 return BoundBuiltin(base, "__get__")
             if attr == "__name__":
                 return Const(base.fi.name)
-            self.err(node, "function attribute %s" % attr)
+            if attr in ("__doc__", "__module__", "__qualname__", "__dict__", "__wrapped__", "__call__", "__code__", "__defaults__"):
+                self.err(node, "function attribute %s" % attr)
+            # an attribute that was never set on this function object
+            raise RaiseSignal(ExcV(ExtV("builtins.AttributeError"), [Const("function object has no attribute '%s'" % attr)]), node)
         if isinstance(base, NTV):
             if attr in base.cls.fields:
                 return base.values[base.cls.fields.index(attr)]
